@@ -246,10 +246,10 @@ def _cold(case):
         # concurrent results: compare with a serial run in this (other) process as well
         import json as _json
         for k, j in enumerate(case["jobs"]):
-            mine = _alone(j["kind"], j["text"].replace("{v}", "1000"), j.get("flags", {}))
+            mine = _alone(j["kind"], j["text"].replace("{v}", "10000"), j.get("flags", {}))
             mine = ["exc", mine[1]] if mine[0] == "exc" else ["ok", _json.loads(_json.dumps(mine[1]))]
             if "{v}" in j["text"]:
-                mine = _json.loads(_json.dumps(mine).replace("1000", "V"))
+                mine = _json.loads(_json.dumps(mine).replace("10000", "V"))
             theirs = out["concurrent_distinct"].get(str(k), []) + [out["serial_after"][k]]
             bad = [t for t in theirs if t != mine]
             if bad:
@@ -354,8 +354,8 @@ def gen_cold(ch):
     if ch.bool(40):
         # a stream of ever new bracket atoms (per-call isotope): bounded symbol caches keep evicting
         jobs.append(dict(kind=ch.pick(["enc", "dec"]), text="", flags={}))
-        jobs[-1]["text"] = "[{v}CH3]C(=O)[{v}O-]" if jobs[-1]["kind"] == "enc" else "[{v}C][=C][{v}OH1]"
-        return dict(kind="cold", jobs=jobs, threads=ch.pick([4, 8]), rounds=ch.pick([40, 80]), rotate=ch.bool(50))
+        jobs[-1]["text"] = "[{v}CH3]C(=O)[{v}O-].[{v}Na+]" if jobs[-1]["kind"] == "enc" else "[{v}C][={v}N][{v}OH1][{v}S][{v}P]"
+        return dict(kind="cold", jobs=jobs, threads=ch.pick([4, 8]), rounds=ch.pick([60, 120]), rotate=ch.bool(50))
     return dict(kind="cold", jobs=jobs, threads=ch.pick([4, 8, 8]), rounds=ch.pick([1, 1, 2]), rotate=ch.bool(50))
 
 
